@@ -613,6 +613,10 @@ class Workspace(AbstractContextManager):
                 "being removed. Please revise."
             )
 
+        if isinstance(entity, ConcatenatedObject):
+            entity.concatenator.remove_children([entity])
+            return
+
         if isinstance(entity, (Concatenated, ConcatenatedPropertyGroup)):
             entity.concatenator.remove_entity(entity)
             return
